@@ -450,12 +450,52 @@ Proof.
   apply Z.leb_le in H3, H3', H4, H4'. repeat split; assumption.
 Qed.
 
-Lemma setup_inv P ini rsp mtu_i mtu_r :
-  wf_setup_b ini rsp mtu_i mtu_r = true -> inv P [] [] (setup ini rsp mtu_i mtu_r).
+(* what the theorems need of a data link: initial credits 1..7 on each side, and each
+   side's maximum frame size acceptable to the other in the sense of
+   Multiplexer.acceptable_frame_size - exactly the links the code lets come up *)
+Definition credits_ok_b (p : pn) : bool := (1 <=? pn_credits p) && (pn_credits p <=? 7).
+
+Definition wf_link_b (ini rsp : pn) (mtu_i mtu_r : Z) : bool :=
+  credits_ok_b ini && credits_ok_b rsp &&
+  acceptable (pn_mfs ini) mtu_i && acceptable (pn_mfs rsp) mtu_r.
+
+Lemma acceptable_ok n m : acceptable n m = true -> 23 <= n <= 32767 /\ 28 <= m.
+Proof.
+  unfold acceptable. intros H. apply andb_prop in H as [H1 H2].
+  apply Z.leb_le in H1, H2. lia.
+Qed.
+
+Lemma wf_link_b_ok ini rsp mtu_i mtu_r :
+  wf_link_b ini rsp mtu_i mtu_r = true ->
+  (1 <= pn_credits ini <= 7) /\ (1 <= pn_credits rsp <= 7) /\
+  (23 <= pn_mfs ini <= 32767) /\ (23 <= pn_mfs rsp <= 32767) /\ 28 <= mtu_i /\ 28 <= mtu_r.
+Proof.
+  unfold wf_link_b, credits_ok_b. intros H.
+  apply andb_prop in H as [H H4]. apply andb_prop in H as [H H3]. apply andb_prop in H as [H1 H2].
+  apply andb_prop in H1 as [A1 A2]. apply andb_prop in H2 as [B1 B2].
+  apply Z.leb_le in A1, A2, B1, B2. apply acceptable_ok in H3, H4. lia.
+Qed.
+
+(* the parameter ranges of the property text are a special case *)
+Lemma wf_setup_implies_link ini rsp mtu_i mtu_r :
+  wf_setup_b ini rsp mtu_i mtu_r = true -> wf_link_b ini rsp mtu_i mtu_r = true.
 Proof.
   intros H. apply wf_setup_b_ok in H as (Hi & Hr & Hmi & Hmr).
-  unfold setup. rewrite !pn_wire_id by assumption.
-  pose proof (wf_pn_b_ok ini Hi). pose proof (wf_pn_b_ok rsp Hr).
+  apply wf_pn_b_ok in Hi, Hr. unfold wf_link_b, credits_ok_b, acceptable.
+  repeat (apply andb_true_intro; split); apply Z.leb_le; lia.
+Qed.
+
+Lemma pn_wire_id' p : 1 <= pn_credits p <= 7 -> 23 <= pn_mfs p <= 32767 -> pn_wire p = p.
+Proof.
+  intros Hc Hm. unfold pn_wire. destruct p as [m c]. cbn in *.
+  rewrite !Z.mod_small by lia. reflexivity.
+Qed.
+
+Lemma setup_inv P ini rsp mtu_i mtu_r :
+  wf_link_b ini rsp mtu_i mtu_r = true -> inv P [] [] (setup ini rsp mtu_i mtu_r).
+Proof.
+  intros H. apply wf_link_b_ok in H as (Hci & Hcr & Hmi & Hmr & Hli & Hlr).
+  unfold setup. rewrite !pn_wire_id' by assumption.
   constructor; cbn; [| |reflexivity]; constructor; cbn; try lia; auto.
 Qed.
 
@@ -465,7 +505,7 @@ Section Reachable.
   Variables ini rsp : pn.
   Variables mtu_i mtu_r : Z.
   Hypothesis HP : wf_params_b P = true.
-  Hypothesis Hwf : wf_setup_b ini rsp mtu_i mtu_r = true.
+  Hypothesis Hwf : wf_link_b ini rsp mtu_i mtu_r = true.
 
   Let s0 := setup ini rsp mtu_i mtu_r.
 
@@ -535,11 +575,11 @@ Section Reachable.
     destruct (reach_inv ls) as [Hab Hba _]. destruct (mtu_const ls) as [Ea Eb].
     pose proof (di_fwd _ _ _ _ _ _ _ Hab) as Ha. pose proof (di_fwd _ _ _ _ _ _ _ Hba) as Hb.
     rewrite Ea in Ha. rewrite Eb in Hb.
-    destruct (wf_setup_b_ok _ _ _ _ Hwf) as (Hi & Hr & Hmi & Hmr).
+    destruct (wf_link_b_ok _ _ _ _ Hwf) as (Hci & Hcr & Hmi & Hmr & Hli & Hlr).
     assert (Ma : d_mtu (s_a s0) = Z.min (pn_mfs rsp) (mtu_r - 5)).
-    { unfold s0, setup. rewrite !pn_wire_id by assumption. reflexivity. }
+    { unfold s0, setup. rewrite !pn_wire_id' by assumption. reflexivity. }
     assert (Mb : d_mtu (s_b s0) = Z.min (pn_mfs ini) (mtu_i - 5)).
-    { unfold s0, setup. rewrite !pn_wire_id by assumption. reflexivity. }
+    { unfold s0, setup. rewrite !pn_wire_id' by assumption. reflexivity. }
     split; (eapply Forall_impl; [|eassumption]); intros f Hf; (split; [|exact Hf]);
       destruct Hf as (Hl & _); lia.
   Qed.
@@ -790,7 +830,7 @@ Proof. induction l1 as [|l r IH]; [reflexivity|]. cbn [app]. rewrite !writes_b_c
    (and nothing else) empties both channels, at which point everything written has
    been handed to the peer's sink *)
 Lemma drains_reachable P ini rsp mtu_i mtu_r ls :
-  wf_params_b P = true -> wf_setup_b ini rsp mtu_i mtu_r = true ->
+  wf_params_b P = true -> wf_link_b ini rsp mtu_i mtu_r = true ->
   exists n,
     let s := run P (setup ini rsp mtu_i mtu_r) (ls ++ drain_sched n) in
     s_ab s = [] /\ s_ba s = [] /\ s_rcv_b s = writes_a ls /\ s_rcv_a s = writes_b ls.
